@@ -12,6 +12,7 @@ C10.E  corrections and post-processing are control-dependent on expect_phi_plus
 from __future__ import annotations
 
 import ast
+import copy
 import math
 from typing import Dict, List, Optional, Tuple
 
@@ -323,6 +324,71 @@ def single_comm_only(ctx, b, fname) -> bool:
     return callers > 0
 
 
+def inline_predicates(expr, cls, depth=3):
+    """replace self.<helper>(...) by the helper's returned expression (helpers whose body is one `return <expr>`),
+    parameters substituted by the call's arguments or their defaults"""
+    class T(ast.NodeTransformer):
+        def visit_Call(self, node):
+            self.generic_visit(node)
+            if A.is_self_attr(node.func) and node.func.attr in cls.methods and depth > 0:
+                h = cls.methods[node.func.attr]
+                body = A.strip_docstring(h.body)
+                if len(body) == 1 and isinstance(body[0], ast.Return) and body[0].value is not None:
+                    ps = h.args.args[1:]
+                    defaults = dict(zip([p_.arg for p_ in ps][len(ps) - len(h.args.defaults):], h.args.defaults)) if h.args.defaults else {}
+                    sub = {}
+                    for i, p_ in enumerate(ps):
+                        a = A.get_arg(node, i, p_.arg)
+                        if a is None:
+                            a = defaults.get(p_.arg)
+                        if a is None:
+                            return node
+                        sub[p_.arg] = a
+                    e = copy.deepcopy(body[0].value)
+
+                    class S(ast.NodeTransformer):
+                        def visit_Name(self, n):
+                            return copy.deepcopy(sub[n.id]) if n.id in sub else n
+                    return inline_predicates(S().visit(e), cls, depth - 1)
+            return node
+    return T().visit(copy.deepcopy(expr))
+
+
+def gate_implies(tests, d, cls, has_role):
+    """does the conjunction of the enclosing tests imply `params.expect_phi_plus` and (when the unit is shared by both
+    roles) `role == EPRRole.RECV`?  Decided by evaluating it for every valuation of its atoms."""
+    exprs = [(inline_predicates(A.expand(t, d), cls), pol) for t, pol in tests]
+    RECV, CREATE = G.Sym("EPRRole.RECV"), G.Sym("EPRRole.CREATE")
+    atoms = set()
+    phi_atoms = set()
+    for e, _ in exprs:
+        for n in ast.walk(e):
+            if isinstance(n, (ast.Name, ast.Attribute)):
+                txt = A.norm(n)
+                if txt.startswith("EPRRole") or txt in ("role",):
+                    continue
+                if isinstance(n, ast.Attribute) and n.attr == "expect_phi_plus":
+                    phi_atoms.add(txt)
+                atoms.add(txt)
+    # keep maximal atoms only (a.b: not a)
+    atoms = {a_ for a_ in atoms if not any(o != a_ and o.startswith(a_ + ".") for o in atoms)}
+    atoms = sorted(a_ for a_ in atoms if a_ not in ("self",))
+    if len(atoms) > 8:
+        raise Unknown(f"too many atoms in the gate: {atoms}")
+    phi_ok = role_ok = True
+    import itertools
+    for vals in itertools.product([True, False], repeat=len(atoms)):
+        for role in ((RECV, CREATE) if has_role else (RECV,)):
+            env = dict(zip(atoms, vals))
+            env.update({"EPRRole.RECV": RECV, "EPRRole.CREATE": CREATE, "role": role})
+            if all(bool(G.peval(e, env)) == pol for e, pol in exprs):
+                if not phi_atoms or not all(env[a_] for a_ in phi_atoms):
+                    phi_ok = False
+                if role is not RECV:
+                    role_ok = False
+    return phi_ok, role_ok, [("" if pol else "not ") + src(e) for e, pol in exprs]
+
+
 def check_gating(ctx):
     repo = ctx.repo
     b = repo.get_class(B, "Builder")
@@ -337,15 +403,22 @@ def check_gating(ctx):
             n += 1
             unit = unit_of(fn, call)
             tests = G.enclosing_tests(unit, call)
-            texts = []
-            for t, pol in tests:
-                conj = t.values if isinstance(t, ast.BoolOp) and isinstance(t.op, ast.And) else [t]
-                texts += [A.norm(x) for x in conj if pol]
-            has_phi = any(x.endswith(".expect_phi_plus") for x in texts)
-            # receiver role: explicit test, or the function only exists on the receiving side
-            recv = any("EPRRole.RECV" in x for x in texts) or "recv" in name
-            ctx.check("C10.E", f"Builder.{name}:{callee}:gated-by-expect_phi_plus", has_phi and recv,
-                      f"Builder.{name} emits Bell corrections ({callee}) under {texts}; they must be emitted only when the receiver expects Phi+", b.loc(call), sample={"site": name, "guards": texts})
+            d = dict(A.single_defs(fn))
+            d.update(A.single_defs(unit))
+            # the unit serves both roles when the enclosing method has a `role` parameter; otherwise it exists on the receiving side only
+            has_role = "role" in A.param_names(fn)
+            recv_only = (not has_role) and "recv" in name
+            try:
+                phi_ok, role_ok, texts = gate_implies(tests, d, b, has_role)
+            except Unknown as ex_:
+                ctx.error("C10.E", f"Builder.{name}: gate of {callee} cannot be evaluated ({ex_})")
+                continue
+            ok = phi_ok and (role_ok if has_role else recv_only)
+            ctx.check("C10.E", f"Builder.{name}:{callee}:gated-by-expect_phi_plus", ok,
+                      f"Builder.{name} emits Bell corrections ({callee}) under {texts}; that condition "
+                      + ("can hold with expect_phi_plus false" if not phi_ok else "can hold on the creating node" if has_role else "is in a method that is not receiver-only and tests no role")
+                      + ": corrections must be emitted only by the receiver and only when it expects Phi+ (both nodes applying the same Pauli leaves the delivered Bell state in place)",
+                      b.loc(call), sample={"site": name, "guards": texts})
     ctx.anchor("C10.E", "correction emission sites", n, 4)
     m = repo.module(BE)
     fn = m.functions.get("deserialize_epr_measure_results")
@@ -378,6 +451,12 @@ def run(ctx):
 BF = "netqasm/sdk/builder.py"
 BEF = "netqasm/sdk/build_epr.py"
 SEEDS = [
+    dict(id="c10-helper-default-role-at-shared-site", expect="C10.E", construct="_build_cmds_wait_move_epr_to_mem", edits=[
+        (BF, "    def _build_cmds_wait_move_epr_to_mem(", "    def _needs_bell_corrections(\n        self, params: EntRequestParams, role: EPRRole = EPRRole.RECV\n    ) -> bool:\n        return params.expect_phi_plus and role == EPRRole.RECV\n\n    def _build_cmds_wait_move_epr_to_mem("),
+        (BF, "            if params.expect_phi_plus and role == EPRRole.RECV:\n                bell_state = self._get_raw_bell_state(", "            if self._needs_bell_corrections(params, role):\n                bell_state = self._get_raw_bell_state("),
+        (BF, "            if params.expect_phi_plus and role == EPRRole.RECV:\n                # Perform Bell corrections", "            if self._needs_bell_corrections(params):\n                # Perform Bell corrections"),
+    ]),
+
     dict(id="c10-table-swapped", file=BF, expect="C10.T", construct="correction", old="        with bell_state.if_eq(BellState.PHI_MINUS.value):  # Phi- -> apply Z-gate", new="        with bell_state.if_eq(BellState.PSI_PLUS.value):  # Phi- -> apply Z-gate"),
     dict(id="c10-psi-minus-half", file=BF, expect="C10.T", construct="correction:PSI_MINUS", old="                ICmd(instruction=GenericInstr.ROT_X, operands=[qubit_reg, 16, 4]),\n                ICmd(instruction=GenericInstr.ROT_Z, operands=[qubit_reg, 16, 4]),", new="                ICmd(instruction=GenericInstr.ROT_X, operands=[qubit_reg, 16, 4]),"),
     dict(id="c10-angle", file=BF, expect="C10.T", construct="correction:PHI_MINUS", old="                ICmd(instruction=GenericInstr.ROT_Z, operands=[qubit_reg, 16, 4])\n            ]\n            self.subrt_add_pending_commands(correction_cmds)  # type: ignore\n        with bell_state.if_eq(BellState.PSI_PLUS.value)", new="                ICmd(instruction=GenericInstr.ROT_Z, operands=[qubit_reg, 8, 4])\n            ]\n            self.subrt_add_pending_commands(correction_cmds)  # type: ignore\n        with bell_state.if_eq(BellState.PSI_PLUS.value)"),
@@ -390,4 +469,11 @@ SEEDS = [
     dict(id="c10-wait-move-generic", file=BF, expect="C10.Q", construct="_build_cmds_wait_move_epr_to_mem", old="        if params.post_routine is None and single_comm_qubit:\n            self._build_cmds_wait_move_epr_to_mem(", new="        if params.post_routine is None:\n            self._build_cmds_wait_move_epr_to_mem("),
     dict(id="c10-wrong-index", file=BF, expect="C10.Q", construct="_build_cmds_post_epr.post_loop", old="                qubit_reg_cmds = qubit_ids.get_future_index(\n                    loop_reg\n                ).get_load_commands(qubit_reg)", new="                qubit_reg_cmds = qubit_ids.get_future_index(\n                    0\n                ).get_load_commands(qubit_reg)"),
 ]
-BENIGN = []
+BENIGN = [
+    dict(id="c10-benign-gate-through-helper", edits=[
+        (BF, "    def _build_cmds_wait_move_epr_to_mem(", "    def _needs_bell_corrections(\n        self, params: EntRequestParams, role: EPRRole = EPRRole.RECV\n    ) -> bool:\n        return params.expect_phi_plus and role == EPRRole.RECV\n\n    def _build_cmds_wait_move_epr_to_mem("),
+        (BF, "            if params.expect_phi_plus and role == EPRRole.RECV:\n                bell_state = self._get_raw_bell_state(", "            if self._needs_bell_corrections(params, role):\n                bell_state = self._get_raw_bell_state("),
+        (BF, "            if params.expect_phi_plus and role == EPRRole.RECV:\n                # Perform Bell corrections", "            if self._needs_bell_corrections(params, role):\n                # Perform Bell corrections"),
+        (BF, "        if wait_all and params.expect_phi_plus:", "        if wait_all and self._needs_bell_corrections(params):", 2),
+    ]),
+]
